@@ -115,8 +115,36 @@ pub fn nonzero(s: &ScSpec) -> Scalar {
     }
 }
 
+/// Message tuples (13 entries; a check uses the first N). Besides independent entries there are
+/// structured shapes that independent sampling practically never produces: sparse tuples (all
+/// zero except a few positions), runs of zeros / equal values at any alignment, constant tuples.
 pub fn msg_specs() -> impl Strategy<Value = Vec<ScSpec>> {
-    proptest::collection::vec(sc_spec(), 13)
+    let independent = proptest::collection::vec(sc_spec(), 13);
+    let sparse = (proptest::collection::vec((0usize..13, sc_spec()), 1..4)).prop_map(|nz| {
+        let mut v = vec![ScSpec::Zero; 13];
+        for (i, s) in nz {
+            v[i] = s;
+        }
+        v
+    });
+    let run = (proptest::collection::vec(sc_spec(), 13), 0usize..13, 1usize..13, sc_spec()).prop_map(|(mut v, start, len, fill)| {
+        for i in start..(start + len).min(13) {
+            v[i] = fill.clone();
+        }
+        v
+    });
+    let zero_run = (proptest::collection::vec(sc_spec(), 13), 0usize..13, 1usize..13).prop_map(|(mut v, start, len)| {
+        for i in start..(start + len).min(13) {
+            v[i] = ScSpec::Zero;
+        }
+        v
+    });
+    prop_oneof![
+        6 => independent,
+        2 => sparse,
+        1 => run,
+        2 => zero_run,
+    ]
 }
 
 pub fn n_of(idx: u8) -> usize {
